@@ -42,6 +42,32 @@ def hostile_rows():
                               ("1.6", "Call", "HeartbeatRequest"), ("1.6", "Call", "NotifyReport"), ("2.0.1", "Call", "StartTransaction"),
                               ("1.6", "Call", "BootNotificationResponse"), ("2.0.1", "Call", "Nope"), ("1.6", "CallResult", "Nope")):
         rows.append((ver, mt, action, "foreign-action", {}, None))
+    # the version string "2.0" (accepted by the library's interface, no schemas shipped for it): its validations end in
+    # NotImplemented and leave nothing behind that a 2.0.1 or 1.6 validation could trip over
+    for (mt, action, payload) in (("Call", "Heartbeat", {}), ("CallResult", "Heartbeat", {"currentTime": "t"}), ("Call", "BootNotification", {}),
+                                  ("Call", "Authorize", {"idToken": {"idToken": "x", "type": "Central"}})):
+        rows.append(("2.0", mt, action, "foreign-action", payload, None))
+    # decimal-mode messages carrying junk nested 60 / 130 / 400 levels deep (refused, or accepted where free-form): whatever
+    # bookkeeping the walk over them does is unwound when they are refused
+    for (mt, action, name) in (("Call", "SetChargingProfile", "SetChargingProfile"), ("Call", "RemoteStartTransaction", "RemoteStartTransaction"),
+                               ("CallResult", "GetCompositeSchedule", "GetCompositeScheduleResponse")):
+        base = G.valid_value(s16[name], s16[name], "plain", rng, "all")
+        for depth in (60, 130, 400):
+            p = copy.deepcopy(base)
+            deep = cur = {}
+            for _ in range(depth):
+                cur["a"] = {}
+                cur = cur["a"]
+            p["junk"] = deep
+            rows.append(("1.6", mt, action, "decimal-hostile", p, None))
+            p2 = copy.deepcopy(base)
+            lst = cur2 = []
+            for _ in range(depth):
+                cur2.append([])
+                cur2 = cur2[0]
+            key = "csChargingProfiles" if "csChargingProfiles" in p2 else ("chargingProfile" if "chargingProfile" in p2 else "chargingSchedule")
+            p2[key] = lst
+            rows.append(("1.6", mt, action, "decimal-hostile", p2, None))
     return rows
 
 
@@ -233,6 +259,15 @@ def body_factory(tier, seed):
         try:
             sample = rng.sample(range(len(rows)), min(len(rows), 250 if tier == "quick" else 2000))
             sample += [i for i, r in enumerate(rows) if r[3] == "decimal-hostile"]
+            # a request and a reply with the SAME action and the SAME payload in flight together (Heartbeat {} is a valid
+            # request and an invalid reply; Reset's request is no valid Reset reply): each keeps its own verdict
+            for (ver, action, payload) in (("1.6", "Heartbeat", {}), ("2.0.1", "Heartbeat", {}), ("1.6", "ClearCache", {}),
+                                           ("1.6", "Reset", {"type": "Hard"}), ("2.0.1", "Reset", {"type": "Immediate"}),
+                                           ("1.6", "Heartbeat", {"currentTime": "2024-01-01T00:00:00Z"})):
+                for mt in ("Call", "CallResult", "Call", "CallResult"):
+                    rows.append((ver, mt, action, "pair", payload, None))
+                    ref.append(clean_verdict(rows[-1]))
+                    sample.append(len(rows) - 1)
             M._validators.clear()
             for i, res in asyncio.run(both(sample)):
                 rep.count("a:%d" % i, nontrivial=False)
